@@ -29,7 +29,7 @@ func init() {
 	fw.Register(&fw.Prop{
 		ID:     "C11",
 		Builds: []string{"default", "386"}, // the 386 build runs a quarter of the random classes on a 32-bit target
-		Rule: "mine: (data of length 0..300, target, workers 1..16) with targets 3^k/len for k=0..8 exactly and +-1, +-2 ulp, 3^k/len*(1+-1e-9), targets at or below 1/len (1/len, 0.9/len, 1/(3 len), 1e-9, smallest subnormal, 0, -0, -1) and random targets up to 3^9/len; every nonce returned without error must satisfy Score(data||LE64(nonce)) >= target under the package's Score and under the model score; the process must survive (a worker-goroutine panic kills the child process and the case in flight is the witness). althash: the exported variable pow.Hash is set to SHA-1, SHA-224, SHA-256, SHA-512/224, SHA-512/256 or BLAKE2b-256 after start-up, then a nonce is mined for 1..5 zeros and scored with the package's own Score; a disagreement is a violation only for BLAKE2b-256 (the digest the statement fixes), for the other digests it is counted, not judged. shared: several Mine calls with different targets run concurrently on ONE *Worker; every returned nonce must meet its own target. reuse: six consecutive calls on one long-lived Worker with the message kept in one buffer that is edited in place between the calls. score: Score(msg) for messages of length 8..400 equals 3^z/len with z from the model (BLAKE2b-256, own b1t6, own Curl-P-81). check: the bit-plane lane test (hook) on crafted 64-lane states with exactly n-1, n, n+1 trailing zero trits at lane 0, 63 and random lanes for n in 0..243 returns the first qualifying lane or 64. " +
+		Rule: "mine: (data of length 0..300, target, workers 1..16 or the constructor's default) with targets 3^k/len for k=0..8 exactly and +-1, +-2 ulp, 3^k/len*(1+-1e-9), targets at or below 1/len (1/len, 0.9/len, 1/(3 len), 1e-9, smallest subnormal, 0, -0, -1) and random targets up to 3^9/len; every nonce returned without error must satisfy Score(data||LE64(nonce)) >= target under the package's Score and under the model score; the process must survive (a worker-goroutine panic kills the child process and the case in flight is the witness). althash: the exported variable pow.Hash is set to SHA-1, SHA-224, SHA-256, SHA-512/224, SHA-512/256 or BLAKE2b-256 after start-up, then a nonce is mined for 1..5 zeros and scored with the package's own Score; a disagreement is a violation only for BLAKE2b-256 (the digest the statement fixes), for the other digests it is counted, not judged. shared: several Mine calls with different targets run concurrently on ONE *Worker; every returned nonce must meet its own target. reuse: six consecutive calls on one long-lived Worker with the message kept in one buffer that is edited in place between the calls. score: Score(msg) for messages of length 8..400 equals 3^z/len with z from the model (BLAKE2b-256, own b1t6, own Curl-P-81). check: the bit-plane lane test (hook) on crafted 64-lane states with exactly n-1, n, n+1 trailing zero trits at lane 0, 63 and random lanes for n in 0..243 returns the first qualifying lane or 64. " +
 			"Non-trivial: mine cases with a target within 2 ulp of a 3^k/len boundary or with len*target < 1; all check cases; score cases.",
 		Assumptions: []string{"BLAKE2b-256 (x/crypto)", "float64 arithmetic of the Go runtime (3^z exact for z <= 33)", "the Curl-P-81 / b1t6 model in harness/oracle/curlp (self-tested)"},
 		SelfTest:    curlp.SelfTest,
@@ -215,7 +215,13 @@ func judge(class string, key []byte, o *fw.Obs) {
 		var err error
 		var sp fw.SpareSet
 		dataIn := fw.NilIfEmpty(sp.Of("data", data, 64), byte(workers)) // a window into a larger buffer: a nonce appended to it would write into the caller's memory
-		if !o.Try("Mine", func() { nonce, err = pow.New(workers).Mine(ctx, dataIn, target) }) {
+		if !o.Try("Mine", func() {
+			if workers == 0 {
+				nonce, err = pow.New().Mine(ctx, dataIn, target) // the constructor's default worker count
+			} else {
+				nonce, err = pow.New(workers).Mine(ctx, dataIn, target)
+			}
+		}) {
 			return
 		}
 		if !sp.Check(o) {
@@ -491,7 +497,7 @@ func gen(g *fw.Gen) {
 				t = 19683 / nn
 			}
 		}
-		emitMine(g.Bytes(l), t, 1+g.Rng.Intn(16))
+		emitMine(g.Bytes(l), t, g.Rng.Intn(17)) // 0: New() without an argument
 	}
 	for n := g.ShareOf(64, 3000); n > 0; n-- {
 		g.Emit("shared", fw.Pack(fw.U64(g.Rng.Uint64())))
